@@ -13,6 +13,7 @@ import (
 
 func init() {
 	register("C20", func(c *core.Ctx, tier string) {
+		mapSentinelNotZeroSize(c, "C20.1g")
 		containerEffects(c, "C20.6")
 		variadicIndexSafety(c, "C20.7")
 		c20LockDiscipline(c)
@@ -639,7 +640,23 @@ func c20Emitter(c *core.Ctx) {
 						// appended values must be non-nil: &composite literals
 						for _, a := range ce.Args[1:] {
 							ue, isU := ast.Unparen(a).(*ast.UnaryExpr)
-							if !isU || ue.Op != token.AND {
+							if !isU {
+								// a field that holds the freshly allocated entry: `x.entry = &eventEntry{…}; append(…, x.entry)`
+								if fld := fieldOf(info, a); fld != "" {
+									fresh := false
+									for _, as := range fieldAssigns(m, fld) {
+										if u2, ok2 := ast.Unparen(as.Rhs).(*ast.UnaryExpr); ok2 && u2.Op == token.AND {
+											if _, isLit := u2.X.(*ast.CompositeLit); isLit && g.Dominates(as.Loc, g.LocOf(a)) {
+												fresh = true
+											}
+										}
+									}
+									if fresh {
+										continue
+									}
+								}
+								allAppend = false
+							} else if ue.Op != token.AND {
 								allAppend = false
 							} else if _, isLit := ue.X.(*ast.CompositeLit); !isLit {
 								allAppend = false
@@ -728,7 +745,8 @@ func c20Emitter(c *core.Ctx) {
 				return true
 			}
 			nLit++
-			fresh := false
+			// the guard is a value field of the per-listener object (atomic.Bool), or a pointer allocated in the loop
+			fresh := true
 			for _, el := range lit.Elts {
 				kv, isKV := el.(*ast.KeyValueExpr)
 				if !isKV {
@@ -737,9 +755,10 @@ func c20Emitter(c *core.Ctx) {
 				if id, isI := kv.Key.(*ast.Ident); !isI || id.Name != "fired" {
 					continue
 				}
+				fresh = false
 				v := on.Resolve(kv.Value)
 				if ue, isU := ast.Unparen(v).(*ast.UnaryExpr); isU && ue.Op == token.AND {
-					if cl, isC := ast.Unparen(ue.X).(*ast.CompositeLit); isC && core.TypeName(info.TypeOf(cl)) == "Once" {
+					if cl, isC := ast.Unparen(ue.X).(*ast.CompositeLit); isC {
 						fresh = loop != nil && loop.Body.Pos() <= cl.Pos() && cl.End() <= loop.Body.End()
 					}
 				}
@@ -747,34 +766,64 @@ func c20Emitter(c *core.Ctx) {
 			okAll = okAll && fresh && loop != nil && loop.Body.Pos() <= lit.Pos() && lit.End() <= loop.Body.End()
 			return true
 		})
-		c.Check(R, "types.(*emmiter).Once/one-guard-per-listener", on.Pos(), nLit == 1 && okAll, "every listener of a Once call gets its own &sync.Once{} allocated in the per-listener loop (a shared guard lets only the first of them ever run)")
+		// the guard field itself is not a shared pointer handed in from outside the loop
+		c.Check(R, "types.(*emmiter).Once/one-guard-per-listener", on.Pos(), nLit == 1 && okAll, "every listener of a Once call gets its own one-time guard, allocated in the per-listener loop (a shared guard lets only the first of them ever run)")
 	}
-	// oneTimeListener.execute
+	// oneTimeListener.execute: the single run is claimed by a won CompareAndSwap(false, true) of the listener's own
+	// guard (no lock is held while the user function runs, so it may emit the same event again: fix 6cb4751), the
+	// listener's OWN registration is dropped (entry identity, not the first registration of the same function), and
+	// only then is the user function called — once
 	if ex := c.Fn(R, "types.(*oneTimeListener).execute"); ex != nil {
-		ok := false
-		for _, d := range ex.CallsTo("sync.(*Once).Do") {
-			k := closureArg(ex, d, 0)
-			if k == nil {
-				continue
+		g := ex.Graph()
+		won := func(u *core.Unit, br core.Branch) int {
+			if br.IsCase {
+				return 0
 			}
-			fnCalled, removed := 0, false
-			for _, cl := range k.Calls() {
-				if fieldOf(k.Info(), cl.Expr.Fun) == "oneTimeListener.fn" {
-					fnCalled++
-				}
-				if cl.Key == "types.(*emmiter).RemoveListener" {
-					removed = true
-				}
+			ce, key := u.AsCall(br.Cond)
+			if ce == nil || !strings.HasSuffix(key, ".CompareAndSwap") || len(ce.Args) != 2 {
+				return 0
 			}
-			ok = fnCalled == 1 && removed
+			se, ok := ce.Fun.(*ast.SelectorExpr)
+			if !ok || fieldOf(u.Info(), se.X) != "oneTimeListener.fired" {
+				return 0
+			}
+			o, ok1 := core.ConstBool(u.Info(), ce.Args[0])
+			n, ok2 := core.ConstBool(u.Info(), ce.Args[1])
+			if ok1 && ok2 && !o && n {
+				return 1
+			}
+			return 0
 		}
-		outside := 0
+		fnCalls := 0
+		var fnCall *core.Call
 		for _, cl := range ex.Calls() {
 			if fieldOf(ex.Info(), cl.Expr.Fun) == "oneTimeListener.fn" {
-				outside++
+				fnCalls++
+				fnCall = cl
 			}
 		}
-		c.Check(R, "types.(*oneTimeListener).execute/inside-Once", ex.Pos(), ok && outside == 0, "user function called exactly once, inside fired.Do, together with self-removal")
+		okClaim := fnCall != nil && fnCalls == 1 && g.GuardedBy(fnCall.Loc, won) && !g.CanFollow(fnCall.Loc, fnCall.Loc)
+		removedSelf := false
+		for _, cl := range ex.Calls() {
+			if cl.Name != "RangeAndSplice" {
+				continue
+			}
+			if k := closureArg(ex, cl, 0); k != nil {
+				c.Touch(k)
+				for _, r := range returnsIn(k) {
+					if len(r.Stmt.Results) == 4 {
+						if be, isB := ast.Unparen(r.Stmt.Results[0]).(*ast.BinaryExpr); isB && be.Op == token.EQL {
+							if fieldOf(k.Info(), be.X) == "oneTimeListener.entry" || fieldOf(k.Info(), be.Y) == "oneTimeListener.entry" {
+								cnt, isC := core.ConstInt(k.Info(), r.Stmt.Results[2])
+								removedSelf = isC && cnt == 1 && fnCall != nil && g.CanFollow(cl.Loc, fnCall.Loc) && !g.CanFollow(fnCall.Loc, cl.Loc)
+							}
+						}
+					}
+				}
+			}
+		}
+		c.Check(R, "types.(*oneTimeListener).execute/claimed-once,own-entry-removed,then-called", ex.Pos(), okClaim && removedSelf,
+			keyf("user function called once on the won CompareAndSwap edge: %v; own registration removed by identity before the call: %v", okClaim, removedSelf))
 	}
 	// RemoveListener
 	if rm := c.Fn(R, "types.(*emmiter).RemoveListener"); rm != nil {
